@@ -72,9 +72,50 @@ def hs_case(rng):
     return ops
 
 
+def reload_case(rng):
+    """a throttling rule re-loaded with ONLY its pacing interval (flow: stat_interval_ms; hotspot: duration) or its maximum
+    queueing time changed: the new pace / bound applies to the very next request (seed C07-e: the manager took the change for
+    'the same rule')"""
+    ops = ["clock"]
+    flow = rng.random() < 0.6
+    thr = rng.choice([2, 5, 10])
+    ivl = rng.choice([1000, 500, 2000])
+    maxq = rng.choice([500, 2000, 5000])
+    d = rng.choice([1, 2])
+    gen_no = [0]
+
+    def load():
+        gen_no[0] += 1
+        if flow:
+            ops.append("flow.load res=r rules=t%d:%d:%d:d:t:0:0:%d" % (gen_no[0], thr, ivl, maxq))
+        else:
+            ops.append("hs.load res=r rules=h%d;q;t;0;;%d;%d;0;%d;0;" % (gen_no[0], thr, maxq, d))
+
+    load()
+    ops.append("adv ms=%d" % rng.choice([1, 777]))
+    eid = 0
+    reload_at = sorted(rng.sample(range(2, 12), rng.choice([1, 2])))
+    for k in range(rng.randint(10, 24)):
+        if k in reload_at:
+            if rng.random() < 0.7:
+                if flow:
+                    ivl = {1000: 10000, 500: 3000, 2000: 500, 10000: 1000, 3000: 500}.get(ivl, 1000)
+                else:
+                    d = 3 - d if d in (1, 2) else 1
+            else:
+                maxq = {500: 2000, 2000: 100, 5000: 500, 100: 5000}.get(maxq, 500)
+            load()
+        ops.append("adv ms=%d" % rng.choice([0, 0, 1, 50, 100, 200, 500, 1100]))
+        eid += 1
+        ops.append("build e=%d res=r batch=1 dir=out%s" % (eid, "" if flow else " args=a"))
+        if rng.random() < 0.5:
+            ops.append("exit e=%d" % eid)
+    return ops
+
+
 def gen_own(rng, tier):
     n = 300 if tier == "quick" else 15000
-    return [flow_case(rng) for _ in range(n)] + [hs_case(rng) for _ in range(n)]
+    return [flow_case(rng) if i % 6 else reload_case(rng) for i in range(n)] + [hs_case(rng) for _ in range(n)]
 
 
 def gen(rng, tier):
